@@ -75,10 +75,52 @@ def worker(job):
                         c["graph_nodes"] = g_nodes
                 if not c.get("cyclic"):
                     c["solutions"] = forest.solutions
+                    if opts.get("chart") and c.get("nodes") is not None and len(c["nodes"]) <= 1200:
+                        from . import chart
+                        c["chart"] = chart.closed_chart(out["grammar"], c["rx"], sk_ws(w))
         except BaseException as e:  # noqa
             c["status"] = "exc-post:" + impl.exc_kind(e)
         out["cases"].append(c)
     return out
+
+
+def _has_split(text):
+    """does the impl's LALR construction keep two states with equal kernels apart (a refused
+    merge)?  Such tables are where state identity matters: GLR keys its stack by state_id."""
+    import os
+    from parglare import Grammar
+    from parglare.tables import create_table
+    from . import impl
+    os.environ["PARGLARE_VERIF_MAX_STATES"] = "150"
+    try:
+        with impl.time_limit(5), impl.quiet():
+            g = Grammar.from_string(text)
+            tab = create_table(g)
+    except BaseException:  # noqa
+        return False
+    finally:
+        os.environ.pop("PARGLARE_VERIF_MAX_STATES", None)
+    seen = set()
+    for st in tab.states:
+        k = frozenset((it.production.prod_id, it.position) for it in st.kernel_items)
+        if k in seen:
+            return True
+        seen.add(k)
+    return False
+
+
+def split_state_grammars(rng, tries, want):
+    """random small grammars whose LALR table contains split (same-kernel) states"""
+    import multiprocessing as mp
+    cands = []
+    for _ in range(tries):
+        r = gramgen.random_grammar(rng, max_nt=3, max_alts=3, max_rhs=3, p_empty=rng.choice([0.0, 0.0, 0.15]))
+        if r is not None:
+            cands.append(r)
+    with mp.Pool(min(16, mp.cpu_count())) as pool:
+        flags = pool.map(_has_split, [t for _, t in cands], chunksize=16)
+    out = [c for c, f in zip(cands, flags) if f]
+    return out[:want]
 
 
 def corpus():
@@ -160,6 +202,12 @@ def gen_jobs(rng, quick, opts_list, with_lexical=True, nrand=None, maxlen=None, 
             rng.shuffle(longer)
             inputs += longer[:40]
         jobs.append(("null2_%d" % i, text, inputs, opts_list[i % len(opts_list)]))
+    if nrand:
+        # LALR tables with split same-kernel states (about 1% of the small random grammars)
+        for i, (prods, text) in enumerate(split_state_grammars(rng, 1500 if quick else 12000, 12 if quick else 80)):
+            inputs = list(gramgen.all_strings(["a", "b"], 6 if quick else 7))
+            jobs.append(("split%d" % i, text, inputs, {**opts_list[0], "tables": 1} if "tables" in opts_list[0]
+                         else opts_list[0]))
     if with_lexical:
         for i in range(nun // 2):
             r = gramgen.lexlen_grammar(rng)
@@ -168,4 +216,10 @@ def gen_jobs(rng, quick, opts_list, with_lexical=True, nrand=None, maxlen=None, 
             prods, text = r
             inputs = list(gramgen.all_strings(["a", "b"], 5 if quick else 6))
             jobs.append(("lexlen%d" % i, text, inputs, opts_list[i % len(opts_list)]))
+        for i in range(nun // 2):
+            r = gramgen.lexamb_grammar(rng)
+            if r is None:
+                continue
+            inputs = list(gramgen.all_strings(["a", "b"], 4 if quick else 5))
+            jobs.append(("lexamb%d" % i, r[1], inputs, opts_list[i % len(opts_list)]))
     return jobs
